@@ -430,7 +430,24 @@ func genC03(r *Rng, e *Emitter, n int) {
 			// the same geometry as a stream whose members each have a byte order of their own
 			if mb, ok := r.mixedEndianEncoding(c, g, bo); ok {
 				e.tally("mixed-endian-members")
-				c04Run(e, c, [4]int{0, -1, -1, -1}, mb)
+				// it is the same geometry as the uniform stream's
+				same := guard(func() string {
+					ub, err := c.marshal(g, bo)
+					if err != nil {
+						return "same"
+					}
+					g1, e1 := c.read(bytes.NewReader(ub))
+					g2, e2 := c.read(bytes.NewReader(mb))
+					if (e1 != nil) != (e2 != nil) || (e1 == nil && raw(g1) != raw(g2)) {
+						return "differs"
+					}
+					return "same"
+				})
+				if same == "same" {
+					c04Run(e, c, [4]int{0, -1, -1, -1}, mb)
+				} else {
+					e.emit("C04.dec", fmt.Sprintf("(%s (- - -) %s)", c.name, hex.EncodeToString(mb)), "(m 0 (member-order-differs))")
+				}
 			}
 		}
 		switch k := r.Intn(10); {
